@@ -1428,3 +1428,125 @@ Proof.
   unfold metric_name_mode, tuner_final_summary. cbn.
   destruct ms as [m'|[|m' l]]; cbn; intro H; try discriminate; injection H as ->; reflexivity.
 Qed.
+
+(* ======================================================================== *)
+(* CSV round trip                                                           *)
+(* ======================================================================== *)
+
+Lemma existsb_key_in k cs : existsb (key_eqb k) cs = true <-> In k cs.
+Proof.
+  rewrite existsb_exists. split.
+  - intros (x & Hx & He). apply key_eqb_spec in He. subst. exact Hx.
+  - intro H. exists k. split; [exact H | apply key_eqb_refl].
+Qed.
+
+Definition col_step (cs : list key) (kv : key * value) : list key :=
+  if existsb (key_eqb (fst kv)) cs then cs else cs ++ [fst kv].
+
+Lemma col_step_nodup cs kv : NoDup cs -> NoDup (col_step cs kv).
+Proof.
+  intro H. unfold col_step. destruct (existsb (key_eqb (fst kv)) cs) eqn:E; [exact H|].
+  apply NoDup_app_snoc; [exact H|]. intro Hin. apply existsb_key_in in Hin. congruence.
+Qed.
+
+Lemma col_step_incl cs kv k : In k cs -> In k (col_step cs kv).
+Proof. unfold col_step. destruct (existsb _ cs); [tauto|]. intro. apply in_or_app. left. assumption. Qed.
+
+Lemma col_step_in cs kv : In (fst kv) (col_step cs kv).
+Proof.
+  unfold col_step. destruct (existsb (key_eqb (fst kv)) cs) eqn:E.
+  - apply existsb_key_in. exact E.
+  - apply in_or_app. right. left. reflexivity.
+Qed.
+
+Lemma add_cols_spec r : forall cs, NoDup cs ->
+  NoDup (add_cols cs r) /\ (forall k, In k cs -> In k (add_cols cs r)) /\
+  (forall kv, In kv r -> In (fst kv) (add_cols cs r)).
+Proof.
+  unfold add_cols. induction r as [|kv r IH]; intros cs Hnd; cbn [fold_left].
+  - repeat split; [exact Hnd | tauto | intros kv []].
+  - fold (col_step cs kv). destruct (IH (col_step cs kv) (col_step_nodup _ _ Hnd)) as (H1 & H2 & H3).
+    repeat split.
+    + exact H1.
+    + intros k Hk. apply H2. apply col_step_incl. exact Hk.
+    + intros kv' [<-|Hin]; [apply H2; apply col_step_in | apply H3; exact Hin].
+Qed.
+
+Lemma columns_fold rows : forall cs, NoDup cs ->
+  NoDup (fold_left add_cols rows cs) /\ (forall k, In k cs -> In k (fold_left add_cols rows cs)) /\
+  (forall r kv, In r rows -> In kv r -> In (fst kv) (fold_left add_cols rows cs)).
+Proof.
+  induction rows as [|r rows IH]; intros cs Hnd; cbn [fold_left].
+  - repeat split; [exact Hnd | tauto | intros r kv []].
+  - destruct (add_cols_spec r cs Hnd) as (A1 & A2 & A3).
+    destruct (IH (add_cols cs r) A1) as (H1 & H2 & H3). repeat split.
+    + exact H1.
+    + intros k Hk. apply H2. apply A2. exact Hk.
+    + intros r' kv [<-|Hin] Hkv; [apply H2; apply A3; exact Hkv | eapply H3; eassumption].
+Qed.
+
+Lemma columns_spec rows :
+  NoDup (columns rows) /\ forall r k v, In r rows -> dget k r = Some v -> In k (columns rows).
+Proof.
+  unfold columns. destruct (columns_fold rows [] (NoDup_nil _)) as (H1 & _ & H3). split; [exact H1|].
+  intros r k v Hr Hg. apply (aget_some_in key_eqb key_eqb_spec) in Hg. apply (H3 r (k, v) Hr Hg).
+Qed.
+
+Lemma dget_fields (h : key -> option value) k cols : NoDup cols ->
+  dget k (flat_map (fun c => match h c with Some v => [(c, v)] | None => [] end) cols)
+  = if existsb (key_eqb k) cols then h k else None.
+Proof.
+  induction cols as [|c cs IH]; intro Hnd; [reflexivity|].
+  inversion Hnd as [|? ? Hni Hnd']; subst. cbn [flat_map existsb]. unfold dget in *. rewrite aget_app.
+  destruct (key_eqb k c) eqn:E.
+  - apply key_eqb_spec in E. subst c. cbn [orb]. destruct (h k) as [v|]; cbn [aget].
+    + rewrite key_eqb_refl. reflexivity.
+    + rewrite (IH Hnd'). destruct (existsb (key_eqb k) cs) eqn:X; [|reflexivity].
+      apply existsb_key_in in X. contradiction.
+  - cbn [orb]. assert (Hn : aget key_eqb k (match h c with Some v => [(c, v)] | None => [] end) = None).
+    { destruct (h c); cbn [aget]; [rewrite E|]; reflexivity. }
+    rewrite Hn. apply IH. exact Hnd'.
+Qed.
+
+Section CsvRoundTrip.
+  Context {T : Type} (render : value -> T) (parse : T -> option value) (is_na : value -> bool).
+
+  Definition back_cell (r : dict) (c : key) : option value :=
+    match frame_cell is_na r c with Some v => parse (render v) | None => None end.
+
+  Lemma read_line cols r :
+    flat_map (fun cf => read_field parse (fst cf) (snd cf)) (combine cols (csv_line render is_na cols r))
+    = flat_map (fun c => match back_cell r c with Some v => [(c, v)] | None => [] end) cols.
+  Proof.
+    unfold csv_line. induction cols as [|c cs IH]; [reflexivity|].
+    cbn [map combine flat_map fst snd]. rewrite IH. f_equal.
+    unfold read_field, back_cell. destruct (frame_cell is_na r c); reflexivity.
+  Qed.
+
+  (* [R v v'] : what "the same value up to the last digits of its text" means; the
+     hypothesis about the text level (repr / float parser of pandas) is explicit *)
+  Context (R : value -> value -> Prop).
+  Hypothesis text_roundtrip : forall v, is_na v = false -> exists v', parse (render v) = Some v' /\ R v v'.
+
+  Theorem csv_roundtrip rows :
+    let back := csv_read parse (csv_write render is_na rows) in
+    length back = length rows /\
+    forall i r, nth_error rows i = Some r ->
+      exists b, nth_error back i = Some b /\
+        forall k, match dget k r with
+                  | Some v => if is_na v then dget k b = None
+                              else exists v', dget k b = Some v' /\ R v v'
+                  | None => dget k b = None
+                  end.
+  Proof.
+    cbn zeta. unfold csv_read, csv_write. cbn [fst snd]. rewrite !map_length, map_map. split; [reflexivity|].
+    intros i r Hi. destruct (columns_spec rows) as [Hnd Hhas].
+    eexists. split; [apply map_nth_error; exact Hi|].
+    intro k. rewrite read_line, (dget_fields _ _ _ Hnd). unfold back_cell, frame_cell.
+    destruct (dget k r) as [v|] eqn:E.
+    - assert (Hin : existsb (key_eqb k) (columns rows) = true).
+      { apply existsb_key_in. eapply Hhas; [eapply nth_error_In; exact Hi | exact E]. }
+      rewrite Hin. destruct (is_na v) eqn:Ena; [reflexivity|]. apply text_roundtrip. exact Ena.
+    - destruct (existsb (key_eqb k) (columns rows)); reflexivity.
+  Qed.
+End CsvRoundTrip.
